@@ -29,7 +29,8 @@ RULE = ("(handshake) for each of 12 handshake flavours a fault-free run "
         "4 flavours, a stride for the rest; thorough: all) plus drawn "
         "offsets; (data phase) every placement of close_notify / warning "
         "alert / fatal alert / raw EOF relative to k data records x "
-        "closeSocket x ignoreAbruptClose, close orders, reads and writes "
+        "closeSocket x ignoreAbruptClose x reader read(min) in {1, within, "
+        "beyond the data}, close orders, reads and writes "
         "after close; close() that waits for the peer's close_notify "
         "(closeSocket=False) with application data / post-handshake "
         "messages of the peer in flight; the reader's courtesy close_notify "
@@ -402,10 +403,17 @@ def check_data(case):
     else:
         raise HarnessError(ev)
     # reader side: read until something other than data happens
+    # rmin > 1: a reader that asks for at least rmin bytes ("fill the buffer
+    # or fail"); what is already buffered when the stream ends must not turn
+    # a truncation into an end of data
+    rmin = case.get("rmin", 1)
+    if rmin != 1:
+        labels.append("rmin=%s" % ("beyond" if rmin > len(sent) else
+                                   "within"))
     got = bytearray()
     final = None
     for _ in range(200):
-        o = sc.do_read(p, reader, 1 << 16, 1)
+        o = sc.do_read(p, reader, 1 << 16, rmin)
         if o.state == "done" and o.value:
             got += o.value
             continue
@@ -416,8 +424,11 @@ def check_data(case):
         FLAVOURS[name].get("v") or "tls13")) == (3, 4) else "tls12-")
     if not bytes(sent).startswith(got):
         return bad("data-not-a-prefix:" + where, "", labels=labels)
+    # (a failing read(min=n) keeps what it had buffered: completeness is
+    # only owed where the stream ends in an orderly way)
     if ev in ("close_notify", "warning", "fatal", "eof", "reset") and \
-            got != bytes(sent):
+            got != bytes(sent) and (rmin == 1 or ev == "close_notify" or (
+                ev == "eof" and case["ignoreAbrupt"])):
         return bad("data-lost-before-closure:" + where,
                    "got %d of %d bytes before the %s" % (
                        len(got), len(sent), ev), labels=labels)
@@ -622,7 +633,9 @@ def cases(draw, tier):
                 "closeSocket": draw(st.booleans()),
                 "ignoreAbrupt": draw(st.booleans()),
                 "desc": draw(st.sampled_from([10, 20, 40, 47, 80, 86])),
-                "cut": draw(st.integers(0, 400))}
+                "cut": draw(st.integers(0, 400)),
+                "rmin": draw(st.sampled_from([1, 1, 2, 50, 101, 150, 238,
+                                              700, 10000]))}
     if draw(st.integers(0, 5)) == 0:
         return {"k": "alert", "fl": draw(st.sampled_from(FL)),
                 "side": draw(st.sampled_from(["c", "s"])),
@@ -669,6 +682,13 @@ def explicit(tier, seed):
                                "nrec": nrec, "sender": sender,
                                "closeSocket": ia or nrec == 0,
                                "ignoreAbrupt": ia, "desc": 80, "cut": 9}
+                        if nrec and fl in FULL_QUICK or tier == "thorough":
+                            for rmin in (150, 10000):
+                                yield {"k": "data", "fl": fl, "event": ev,
+                                       "nrec": nrec + 1, "sender": sender,
+                                       "closeSocket": ia,
+                                       "ignoreAbrupt": ia, "desc": 80,
+                                       "cut": 9, "rmin": rmin}
         for nrec in (0, 1, 3):
             for sender in "cs":
                 yield {"k": "data", "fl": fl, "event": "close_inflight",
